@@ -177,7 +177,8 @@ func main() {
 				return
 			}
 			db, rerr := os.ReadFile(dump)
-			if rerr != nil || werr != nil {
+			// exit status 66 is the race detector's "reports were written" exit code: the dump is still valid
+			if rerr != nil {
 				// child died without a result: process-fatal fault (panic outside recover, runtime fatal error, checkptr)
 				keep := filepath.Join(monitor.Root(), "replays", fmt.Sprintf("%s-crash-b%d.log", id, b))
 				_ = os.MkdirAll(filepath.Dir(keep), 0o755)
